@@ -126,6 +126,11 @@ func vh_C14_L2_deferred_reset() {
 	ids := [][]uint16{{4}, {9, 4}, {4, 9}, {9, 4, 11}}[vPick(4)]
 	req := &paramOutgoingResetRequest{reconfigRequestSequenceNumber: nondetU32(), senderLastTSN: last, streamIdentifiers: ids}
 	s4 := a.streams[4]
+	if vPick(2) == 1 {
+		s4.lock.Lock()
+		s4.readErr = ErrReadDeadlineExceeded // the reader's last read timed out and it has not re-armed its deadline yet
+		s4.lock.Unlock()
+	}
 	nReaders := 1 + vPick(2)
 	vCondPark(s4.readNotifier, nReaders) // readers blocked on the stream when the reset arrives
 	vassert(vDeliver(a, &chunkReconfig{paramA: req}) == nil, "RECONFIG is never fatal")
@@ -137,7 +142,7 @@ func vh_C14_L2_deferred_reset() {
 		vassert(vCondParked(s4.readNotifier) == 0, "every reader blocked on the stream is woken by the reset")
 		vassert(len(a.reconfigRequests) == 0, "a performed request is forgotten")
 	} else {
-		vassert(s4.readErr == nil, "no end-of-file before the data")
+		vassert(s4.readErr != io.EOF, "no end-of-file before the data")
 		vassert(len(a.reconfigRequests) == 1, "the request is kept for later")
 	}
 	// the response goes out
